@@ -94,8 +94,14 @@ def write_evidence(pid, tier, verif_seed, camp, eng, extra, violations, wall):
         "violations": violations,
     }
     ev["coverage"].update(extra or {})
-    os.makedirs(os.path.join(VERIF, "evidence"), exist_ok=True)
-    with open(os.path.join(VERIF, "evidence", f"{pid}.json"), "w") as f:
+    from . import runners
+
+    # evidence describes /repo itself; a run against another tree (mutant, scratch worktree) must not
+    # overwrite it
+    edir = os.path.join(VERIF, "evidence") if os.path.realpath(runners.REPO) == "/repo" else \
+        os.path.join(os.environ.get("CBISIM_SCRATCH") or "/dev/shm", "cbisim-evidence-other-tree")
+    os.makedirs(edir, exist_ok=True)
+    with open(os.path.join(edir, f"{pid}.json"), "w") as f:
         json.dump(ev, f, indent=1, sort_keys=True)
     return ev
 
